@@ -27,6 +27,7 @@ F32 = np.float32
 class JobShopH(Harness):
     ENV = "JobShop"
     QUICK = ["JobShop@3x2x2x2", "JobShop@2x3x2x2"]
+    C01_EXTRA = ["JobShop@2x2x1x4"]      # max_op_duration (4) well above max_num_ops (1): a spec bound taken from the wrong generator attribute shows
     THOROUGH = ["JobShop@3x2x3x2", "JobShop@3x3x3x3"]
     INVALID = "terminate"
     BMC = True
